@@ -12,7 +12,7 @@ RULE = ('case = (specifier, hash, cipher/key size, coded count, passphrase class
         'with the reference; non-trivial = needs more than one hash context, or count shorter than salt+passphrase, or count not a multiple '
         'of len(salt+passphrase), or empty/long/non-ASCII passphrase; distinct = distinct case descriptors')
 ASSUMPTIONS = ['hashlib digests are correct', 'vf.ref.sym.s2k follows RFC 4880 3.7.1 (cross-checked against gpg symmetric encryption when gpg is available)']
-MIN_COUNTERS = {'derive_compared': 300, 'multi_context': 50, 'count_values': 200}
+MIN_COUNTERS = {'derive_compared': 300, 'multi_context': 50, 'count_values': 200, 'count_boundary_window': 300}
 BUDGET = {'quick': (150, 600), 'thorough': (1500, 3600)}
 
 HASHES = [1, 2, 3, 8, 9, 10, 11]
@@ -41,6 +41,12 @@ def cases(tier, seed):
             if tier == 'quick' and cnt > 0xC0 and cnt % 8 != 7:
                 continue
             cs.append({'spec': 3, 'h': h, 'c': 9, 'p': 2 + cnt % 3, 'salt': hx(bytes(r.getrandbits(8) for _ in range(8))), 'cnt': cnt})
+    # boundary window: len(passphrase) and len(salt+passphrase) just below / at / above the decoded count
+    for cnt in (0, 1, 2, 15, 16, 17, 0x20):
+        n = (16 + (cnt & 15)) << ((cnt >> 4) + 6)
+        for h, c in ((8, 7), (2, 9), (1, 9)):
+            for plen in list(range(n - 18, n + 3)):
+                cs.append({'spec': 3, 'h': h, 'c': c, 'plen': plen, 'salt': hx(bytes(r.getrandbits(8) for _ in range(8))), 'cnt': cnt})
     # every cipher id PGPy knows, to cover the key-size table
     for c in (1, 2, 3, 4, 7, 8, 9, 10, 11, 12, 13):
         cs.append({'spec': 3, 'h': 1, 'c': c, 'p': 3, 'salt': hx(salts[0]), 'cnt': 0x20})
@@ -55,7 +61,11 @@ def run_case(ctx, d):
         return _stored(ctx)
     if d.get('gpg'):
         return _gpg(ctx)
-    pn, pw = PASSES[d['p']]
+    if 'plen' in d:
+        pn, pw = 'len%d' % d['plen'], bytes((i * 7 + 3) % 251 for i in range(d['plen']))
+        ctx.count('count_boundary_window')
+    else:
+        pn, pw = PASSES[d['p']]
     if pw is None:
         pw = bytes(ctx.rng('pw', d['salt']).getrandbits(8) for _ in range(40))
     salt = bytes.fromhex(d['salt'])
@@ -86,7 +96,7 @@ def run_case(ctx, d):
         ctx.count('multi_context')
     short = d['spec'] == 3 and wire.s2k_count(d['cnt']) < unit
     ragged = d['spec'] == 3 and unit and wire.s2k_count(d['cnt']) % unit != 0
-    if multi or short or ragged or pn in ('empty', 'utf8', 'p5000', 'bytes'):
+    if multi or short or ragged or pn in ('empty', 'utf8', 'p5000', 'bytes') or 'plen' in d:
         ctx.nontrivial(d)
     if short:
         ctx.count('count_shorter_than_input')
